@@ -48,7 +48,7 @@ TRUSTED = [
     "backend by this run (formats, constituent arrays, hold/free/finalisation logs)",
     "tie T1 (keep-alive edges): tools/tables.d/C20.py reads with Python's `ast` which `_hold_ref` / `free_memref` loop of the nested "
     "Storage class runs under which `owns_memory` condition and pins the texts of `_hold_ref`, the conversion functions and `Array.copy`; "
-    "its reading of those statements as the four flags of SparseV.Own.Cfg is trusted (and compared with the `_hold_ref` log each run)",
+    "its reading of those statements (and of the base walk before `_hold_ref`) as the five flags of SparseV.Own.Cfg is trusted (and compared with the `_hold_ref` log each run)",
     "weak references decide 'released while a view is alive': CPython clears a weak reference exactly when the object is deallocated, "
     "a NumPy array that owns its data frees it in its deallocator, an owning Storage frees its fields in `__del__`",
     "the MLIR sparse_tensor dialect's storage semantics (pos/crd/values per level) is what `toDense` formalises; it is validated "
@@ -650,6 +650,17 @@ def lifetime_programs(ctx, rng):
     def dt(i):
         return fdt[(i + seed) % len(fdt)]
 
+    # ---- must-pass (every run, every seed): the witnesses of the repaired defect d206752 — for the element types the MLIR
+    # runtime re-views, to_numpy of a TEMPORARY result (the owning storage has no other holder once the call returns) and
+    # to_numpy(asarray(a)) followed by `del a, x`
+    for mdt in ("complex64", "complex128", "float16"):
+        a = (np.arange(12).reshape(3, 4) + 1).astype(mdt)
+        progs.append((f"life:must-pass:to_numpy-of-temporary:{mdt}",
+                      [["np", "a", np_spec(a)], ["asarray", "x", "a", None], ["op", "r", "add", ["x", "x"]], ["to_numpy", "t", "r"]],
+                      ["r", "a", "x"]))
+        for cp in (None, True):
+            progs.append((f"life:must-pass:to_numpy-del-a-x:{mdt}:copy={cp}",
+                          [["np", "a", np_spec(a)], ["asarray", "x", "a", cp], ["to_numpy", "t", "x"]], ["a", "x"]))
     # ---- NumPy input: copy=None / False / True, ranks 1-4
     shapes = [(3, 4), (5,), (2, 3, 2)] if quick else [(3, 4), (5,), (2, 3, 2), (2, 2, 2, 3), (1, 1)]
     for i, cp in enumerate((None, False, True)):
